@@ -146,6 +146,14 @@ func (x *Exec) stmt(fr *Frame, s ast.Stmt, st *State, k func(*State)) {
 		tgt := fr.targets[s]
 		switch s.Tok {
 		case token.BREAK:
+			if fr.contract != nil && fr.depth == 0 {
+				if ord, ok := fr.loopOrd[tgt]; ok {
+					if lc := fr.contract.Loops[ord]; lc != nil && lc.Exhaustive {
+						x.oblige(fr, st, "exhaustive", fmt.Sprintf("loop%d/break@%s", ord, x.siteLabel(s)), TFalse, s)
+						x.Obls[len(x.Obls)-1].Tag = lc.ExhaustiveTag
+					}
+				}
+			}
 			if f := fr.breakK[tgt]; f != nil {
 				f(st)
 				return
